@@ -14,6 +14,7 @@
 #include "gen/gens.hpp"
 #include "gen/mutate.hpp"
 #include "ref/fields.hpp"
+#include <set>
 
 using pbt::Ctx; using pbt::Bytes;
 
@@ -90,7 +91,57 @@ static void converse(Ctx &c, const Sample &s) {
     c.desc << " converse-mode: " << n << " alterations, " << opened << " opened"; c.extra_evals = n; c.extra_distinct = n; c.nontrivial(); c.label("converse-mode");
 }
 
+// Large headers (thousands of index entries): the header body, or the whole header, is steered onto the sizes at which the
+// library's internal block buffers (32 KiB read/hash blocks, the 16 KiB transport buffer) end exactly, and one byte to either
+// side; substitutions are sampled there (every lead byte, the first and last bytes of the body, the bytes around every 4 KiB
+// multiple, random positions) because position x value over 30-70 KiB is too large to enumerate per sample.
+static void big_header(Ctx &c) {
+    int full_hash = (int)c.draw(3), chunk_hash = (int)c.draw(3); bool from_ref = c.rarely(3), align_total = c.boolean();
+    size_t T; uint64_t tk = c.draw(19);
+    if (tk < 10) T = 32768 * (1 + (size_t)c.draw(2));                                  // the 32 KiB block size and its multiples
+    else if (tk < 13) T = 16384 * (1 + 2 * (size_t)c.draw(1));                         // 16 KiB, 48 KiB
+    else if (tk < 16) T = 32768 * (1 + (size_t)c.draw(1)) + (c.boolean() ? 1 : -1);    // one byte to either side
+    else T = 20000 + (size_t)c.draw(50000);
+    uint64_t seed = c.draw(9999);
+    size_t e = ref::digest_size(chunk_hash) + 2, nA = T / e, nB = 0, nC = 0; Bytes file; size_t L = 0; ref::ParseResult pr;
+    for (int it = 0; it < 8; it++) {                      // nA chunks of 100 bytes, nB of 200 (+2 index bytes each), nC of 125 (+1)
+        std::vector<Bytes> chunks; size_t k = 0;
+        auto add = [&](size_t n, size_t len) { for (size_t i = 0; i < n; i++, k++) { Bytes b(len); gen::fill_random(b.data(), len, seed * 7919 + k); chunks.push_back(b); } };
+        add(nB, 200); add(nC, 125); add(nA, 100);
+        if (from_ref) { ref::WriteSpec w; w.comp = ZCK_COMP_ZSTD; w.hash_type = full_hash; w.chunk_hash_type = chunk_hash; w.chunks = chunks; file = ref::write(w).file; }
+        else { lib::WCfg w; w.comp = ZCK_COMP_ZSTD; w.full_hash = full_hash; w.chunk_hash = chunk_hash; w.manual = true; Bytes D; std::vector<lib::WOp> ops;
+               for (auto &ch : chunks) { D.insert(D.end(), ch.begin(), ch.end()); ops.push_back({false, ch.size()}); ops.push_back({true, 0}); }
+               lib::WResult wr = lib::write_file(w, D, ops); if (!wr.ok) c.fail("sample-write", "library failed to write a plain sample: " + wr.cfg_err + wr.err); file = wr.file; }
+        pr = ref::parse(file); if (!pr.ok) c.fail("sample-parse", "reference rejects the sample: " + pr.reason);
+        L = align_total ? pr.h.total_size : pr.h.header_length;
+        if (getenv("C06_TRACE")) { FILE *tf = fopen(getenv("C06_TRACE"), "a"); fprintf(tf, "it=%d nA=%zu nB=%zu nC=%zu L=%zu T=%zu\n", it, nA, nB, nC, L, T); fclose(tf); }
+        if (L == T) break;
+        if (L > T) { size_t d = (L - T + e - 1) / e + 1; nA = nA > d ? nA - d : 1; nB = nC = 0; continue; }
+        size_t d = T - L; nA += d / e; d %= e; size_t cb = d / 2, cc = d % 2; nB += cb; nC += cc; nA = nA > cb + cc ? nA - cb - cc : 0;      // convert 100-byte chunks
+    }
+    size_t hdr = pr.h.total_size, lead = pr.h.lead_size;
+    c.desc << (from_ref ? "ref-written" : "lib-written") << " big header: " << (align_total ? "whole header " : "header body ") << L << " bytes (aimed at " << T << "), " << pr.h.entries.size() << " index entries, fullhash=" << full_hash << " chunkhash=" << chunk_hash;
+    c.label(L == T ? "big-header-aligned" : "big-header-unaligned"); if (L == T && T % 32768 == 0) c.label(from_ref ? "big-header-on-32KiB-multiple(ref-written)" : align_total ? "big-header-on-32KiB-multiple(whole,lib-written)" : "big-header-on-32KiB-multiple(body,lib-written)");
+    int fd = lib::mkfd(file);
+    if (!lib_opens(fd)) { close(fd); c.label("sample-not-opened"); c.desc << " (library refuses the unmutated sample)"; return; }
+    std::set<size_t> P; for (size_t i = 0; i < lead; i++) P.insert(i);
+    for (size_t i = 0; i < 48 && lead + i < hdr; i++) P.insert(lead + i);
+    for (size_t i = 1; i <= 400 && i <= hdr; i++) P.insert(hdr - i);
+    for (size_t m = 4096; m < hdr + 4096; m += 4096) for (long dlt = -3; dlt <= 3; dlt++) { for (size_t base : {(size_t)0, lead}) { long q = (long)base + (long)m + dlt; if (q >= 0 && (size_t)q < hdr) P.insert((size_t)q); } }
+    pbt::Rng rng(seed + 17); for (int i = 0; i < 300; i++) P.insert(rng.below(hdr));
+    uint64_t evals = 0;
+    for (size_t pos : P) { uint8_t orig = file[pos];
+        for (uint8_t v : {(uint8_t)(orig ^ 1), (uint8_t)(orig ^ 0x80), (uint8_t)(orig + 37)}) {
+            if (pwrite(fd, &v, 1, pos) != 1) abort(); evals++;
+            if (lib_opens(fd)) { Bytes m = file; m[pos] = v; ref::ParseResult q = ref::parse(m);
+                if (!q.ok || !q.h.checksum_ok) { close(fd); c.extra_evals = evals; c.fail("subst-accepted", "header byte " + std::to_string(pos) + " of " + std::to_string(hdr) + " changed from " + std::to_string(orig) + " to " + std::to_string(v) + " and the file still opens (reference: " + q.reason + ")"); } }
+        }
+        if (pwrite(fd, &orig, 1, pos) != 1) abort(); }
+    close(fd); c.extra_evals = evals; c.extra_distinct = evals; c.nontrivial();
+}
+
 static void prop(Ctx &c) {
+    if (c.gver >= 4 && c.rarely(4)) { big_header(c); return; }
     Sample s = make_sample(c);
     c.desc << s.desc;
     if (c.chance(1, 3)) { converse(c, s); return; }
